@@ -282,8 +282,19 @@ class Logics:
             ext = (ext,)
         if not isinstance(ext, tuple) or not all(isinstance(x, str) for x in ext):
             raise AnalysisError(f'{mod}.Meta.extension_of not literal: {ext}')
-        nat = g('native_operators', ())
-        natnames = tuple(x.member for x in nat if isinstance(x, EnumRef)) if isinstance(nat, tuple) else ()
+        # LogicMetaMeta.__new__ merges native_operators over the Meta bases: union over the MRO
+        natset = []
+        for c in m.mro(Meta):
+            ns_ = m.clsns(c)
+            if 'native_operators' in ns_:
+                nat = m.force(ns_['native_operators'])
+                if isinstance(nat, tuple):
+                    for x in nat:
+                        if isinstance(x, EnumRef) and x.member not in natset:
+                            natset.append(x.member)
+                elif c.module != LOGICS:
+                    raise AnalysisError(f'{c}.native_operators not a literal sequence: {nat}')
+        natnames = tuple(natset)
         tfcls = m.getattr(ModelC, 'TruthFunction')
         acc = m.getattr(ModelC, 'Access')
         if not isinstance(tfcls, ClassRef) or not isinstance(acc, ClassRef):
